@@ -73,3 +73,13 @@ def assigns(name):
 def count_stores(ip, key, name):
     clo = ip.repo(key)
     return sum(1 for n in ast.walk(clo.node) if isinstance(n, ast.Name) and n.id == name and isinstance(n.ctx, ast.Store))
+
+
+def assigns_attr(attr):
+    def pred(st):
+        for n in ast.walk(st):
+            if isinstance(n, ast.Attribute) and n.attr == attr and isinstance(n.ctx, ast.Store):
+                return True
+        return False
+
+    return pred
